@@ -297,8 +297,9 @@ def j_str(base, size=None, frm=None):
         if base == "UniversalString" and any(u > 0x10ffff or 0xd800 <= u <= 0xdfff for u in units):
             bad.append("unicode")
         if base == "BMPString" and any(u >= 0xfffe for u in units):
-            # the two noncharacters: every GENERATED checker refuses them (`cv <= 65533`), BMPString_constraint looks at the octet count only
-            bad.append("nonchar" if (size or frm is not None) else "nonchar-plain")
+            # the two noncharacters: every generated checker refuses them (`cv <= 65533`) and so does BMPString_constraint
+            # (the checker of a BMPString without constraint) since C08-fix-5; no distinction, no excuse
+            bad.append("nonchar")
         if frm is not None and any(u not in frm for u in units):
             bad.append("from")
         return bad
@@ -478,8 +479,6 @@ def strings_module(rng, tier, name="MU0"):
         known = None
         if bad and ws <= {"unicode"}:
             known = "C08-utf8-accepts-non-unicode" if "UTF8" in type_text(t) else "C08-universal-units-unchecked"
-        elif bad and ws <= {"nonchar-plain"}:
-            known = "C08-bmp-noncharacters-unchecked"
         elif bad and ws <= {"from", "unicode"} and known_from:
             known = "C08-utf8-from-unchecked"
         cases.append({"tn": tn, "label": lab.split("/")[0].split(":")[0].rstrip("0123456789@"), "der": der(t, v).hex(), "bad": ["%s %s" % pw for pw in bad], "known": known,
@@ -564,6 +563,9 @@ def strings_module(rng, tier, name="MU0"):
         for u in units:
             c = u.to_bytes(w, "big")
             add(pre + "0", plain, c, "unit:%x/alone" % u)
+            if w == 2:              # BMPString_constraint walks every unit: the unit in middle and last position of a string without constraint
+                add(pre + "0", plain, unit + c + unit, "unit:%x/plainmiddle" % u)
+                add(pre + "0", plain, unit + unit + c, "unit:%x/plainlast" % u)
             if u < 0x80000000:      # a first octet >= 0x80 in a GENERATED UniversalString checker: open finding C04-generated-alphabet-shift (UBSan stops the driver)
                 add(pre + "1", sized, unit + c, "unit:%x/last" % u)
                 add(pre + "Q", seq, [unit, c], "unit:%x/member" % u)
